@@ -39,6 +39,7 @@ func runC20(c *report.Ctx) {
 	c.Clause("4 error bodies untouched")
 	checkErrorBodies(c)
 	checkCropKeepsField(c)
+	checkRuntimeReleaseReturnedAsStored(c)
 	c.Clause("5 runtime identity string")
 	checkRuntimeRelease(c)
 }
